@@ -256,3 +256,45 @@ Theorem C01_roundtrip_compressed : forall c dc fs out, e_compressed c = true -> 
      exists fts, decode_stream dc out = Ok fts /\ Forall2 (fun ft r => Forall2 msg_sim (fit_msgs ft) (er_msgs r)) fts rs).
 Proof. exact roundtrip_compressed_any. Qed.
 Print Assumptions C01_roundtrip_compressed.
+
+(* the compressed-timestamp option in full generality: developer fields AND timestamps moved into record headers (the remaining
+   combination of options): single or chained files, any decoder option set with expansion off.  [msgs_all]: fields and developer
+   fields round-trip at the value level (descriptions threaded through the sequence), at most one timestamp field, which is the
+   profile's; field_description messages carry no timestamp. *)
+From Fit Require Import Proofs.RoundtripAll.
+Theorem C01_roundtrip_all_compressed : forall c dc fs out, e_compressed c = true -> encoder_tracks_last_timestamp = true -> c_expand dc = false -> 765 <= c_bufsize dc ->
+  fs <> [] -> encode_fits c fs [] = Ok out ->
+  exists rs, Forall2 (fun f r => encode_fit c f = Ok r) fs rs /\ out = concat (map er_bytes rs) /\
+    (Forall (fun r => msgs_all (e_big c) [] (er_msgs r) /\ len (er_bytes r) < 4294967296 /\ bytes_ok (er_bytes r)) rs ->
+     exists fts, decode_stream dc out = Ok fts /\ Forall2 (fun ft r => Forall2 msg_simd (fit_msgs ft) (er_msgs r)) fts rs).
+Proof. exact roundtrip_all_compressed. Qed.
+Print Assumptions C01_roundtrip_all_compressed.
+
+(* satisfiable: developer_data_id, field_description, then two records 5 s apart that both carry the developer field *)
+Definition dev_file_c := mkefile 14 0 0
+  [mkmsg 0 mesgnum_DeveloperDataId [set_value (create_field mesgnum_DeveloperDataId 3) (VNum TU8 0)] [];
+   mkmsg 0 mesgnum_FieldDescription [set_value (create_field mesgnum_FieldDescription 0) (VNum TU8 0); set_value (create_field mesgnum_FieldDescription 1) (VNum TU8 7);
+                                     set_value (create_field mesgnum_FieldDescription 2) (VNum TU8 2)] [];
+   mkmsg 0 mesgnum_Record [set_value (create_field mesgnum_Record 253) (VNum TU32 t0); set_value (create_field mesgnum_Record 3) (VNum TU8 61)] [mkdev 7 0 (VNum TU8 99)];
+   mkmsg 0 mesgnum_Record [set_value (create_field mesgnum_Record 253) (VNum TU32 (t0 + 5)); set_value (create_field mesgnum_Record 3) (VNum TU8 62)] [mkdev 7 0 (VNum TU8 98)]].
+Ltac ts_side := split; [unfold ts_unique; cbn; lia|split; [unfold ts_ok; vm_compute; first [exact I | reflexivity]|split; [unfold ts_known; cbn [m_fields m_num]; intros f Hf; vm_compute in Hf; first [discriminate Hf | injection Hf as <-; split; [vm_compute; reflexivity|split; reflexivity]]|intros Hn; vm_compute in Hn; first [discriminate Hn | vm_compute; reflexivity]]]].
+Example C01_all_instance :
+  exists r, encode_fit cfg_compressed dev_file_c = Ok r /\ msgs_all false [] (er_msgs r) /\ len (er_bytes r) < 4294967296.
+Proof.
+  assert (E : exists r, encode_fit cfg_compressed dev_file_c = Ok r /\ er_msgs r = ef_msgs dev_file_c /\ len (er_bytes r) < 4294967296)
+    by (eexists; split; [vm_compute; reflexivity|split; vm_compute; reflexivity]).
+  destruct E as (r & E & Em & El). exists r. split; [exact E|]. rewrite Em. split; [|exact El].
+  unfold dev_file_c. cbn [ef_msgs msgs_all]. split; [|split; [|split; [|split; [|exact I]]]].
+  - split; [|ts_side]. unfold msg_rtd. cbn [m_fields m_devs m_num length]. split; [lia|]. split; [lia|]. split; [vm_compute; reflexivity|]. split; [|constructor].
+    constructor; [u8field|constructor].
+  - split; [|ts_side]. unfold msg_rtd. cbn [m_fields m_devs m_num length]. split; [lia|]. split; [lia|]. split; [vm_compute; reflexivity|]. split; [|constructor].
+    constructor; [u8field|constructor; [u8field|constructor; [u8field|constructor]]].
+  - split; [|ts_side]. unfold msg_rtd. cbn [m_fields m_devs m_num length]. split; [lia|]. split; [lia|]. split; [vm_compute; reflexivity|]. split.
+    + constructor; [eapply field_rt_scalar with (t := TU32); try reflexivity; try exact I; split; [discriminate|reflexivity]|constructor; [u8field|constructor]].
+    + constructor; [|constructor]. unfold dev_rt. eexists. eexists. split; [vm_compute; reflexivity|]. split; [reflexivity|]. split; [reflexivity|].
+      split; [vm_compute; split; [reflexivity|discriminate]|]. split; [vm_compute; discriminate|vm_compute; reflexivity].
+  - split; [|ts_side]. unfold msg_rtd. cbn [m_fields m_devs m_num length]. split; [lia|]. split; [lia|]. split; [vm_compute; reflexivity|]. split.
+    + constructor; [eapply field_rt_scalar with (t := TU32); try reflexivity; try exact I; split; [discriminate|reflexivity]|constructor; [u8field|constructor]].
+    + constructor; [|constructor]. unfold dev_rt. eexists. eexists. split; [vm_compute; reflexivity|]. split; [reflexivity|]. split; [reflexivity|].
+      split; [vm_compute; split; [reflexivity|discriminate]|]. split; [vm_compute; discriminate|vm_compute; reflexivity].
+Qed.
